@@ -18,7 +18,7 @@ RULE = ("(A) pairs of plain trees with overlapping and disjoint keys at depth <=
         "equal load_tree(model-merged tree) into a fresh configuration, and unresolved includes must fail; "
         "non-trivial = merge pair with an overlapping key, or a file case with >= 1 include processed; distinct = "
         "distinct case content")
-REQUIRED = ("startdir_form:rel", "startdir_form:home", "nested_schema_declared_before_includes", "merge_pairs_compared", "merge_purity_checks", "file_cases_compared", "file_cases_nested_include",
+REQUIRED = ("file_cases_with_format_options", "reloads_after_include_files_rewritten", "startdir_form:rel", "startdir_form:home", "nested_schema_declared_before_includes", "merge_pairs_compared", "merge_purity_checks", "file_cases_compared", "file_cases_nested_include",
             "file_cases_chain", "file_cases_unresolvable_rejected", "file_cases_relative_startdir")
 ASSUMPTIONS = ["documents and include files are produced with the library's own codecs (decided by C04)",
                "the merged tree keeps the include key; included files naming an already processed include field of the "
@@ -137,7 +137,11 @@ def generate(rng, ctx):
             doc["sub"]["deep"]["inc"] = v
             kinds.append(how)
     return {"kind": "files", "fmt": fmt, "layout": layout, "doc": doc, "files": files, "inc_kinds": kinds,
-            "use_load": rng.random() < 0.5}
+            "use_load": rng.random() < 0.5,
+            # format options given to load()/loads(): the included files are written and must be read with them too
+            "opts": rng.choice(trees.OPTIONS[fmt]) if rng.random() < 0.5 else {},
+            # the include files are rewritten and everything is loaded again into a new configuration of the same schema
+            "reload_after_rewrite": rng.random() < 0.5}
 
 
 def abbreviate(case):
@@ -302,9 +306,25 @@ def run_files(case, ctx, res):
     schema = _schema(cc, layout, d)
     doc = _resolve(case["doc"], d)
     files = {k: _resolve(v, d) for k, v in case["files"].items()}
-    codec = cc.ConfigFormat.get(fmt)
+    opts = dict(case.get("opts") or {})
+    codec = cc.ConfigFormat.get(fmt, **opts)
     dummy = schema()
     homebase = os.path.join(os.path.expanduser("~"), "c18-" + os.path.basename(d))
+
+    def write_all(files_now):
+        for rel, tree in files_now.items():
+            real = os.path.join(d, rel)
+            top = rel.split(os.sep)[0]
+            if layout.get("startdir_form") == "home" and top in ("inc", "other") and (
+                    top == layout["startdir_root"] or top == layout["startdir_sub"]):
+                real2 = os.path.join(homebase, rel)
+                os.makedirs(os.path.dirname(real2), exist_ok=True)
+                with open(real2, "wb") as fp:
+                    fp.write(codec.dumps(dummy, tree))
+            with open(real, "wb") as fp:
+                fp.write(codec.dumps(dummy, tree))
+
+    case = dict(case, _write_all=write_all)
     try:
         for rel, tree in files.items():
             real = os.path.join(d, rel)
@@ -338,20 +358,45 @@ def run_files(case, ctx, res):
         shutil.rmtree(homebase, ignore_errors=True)
 
 
-def _run_files_tail(cc, ctx, res, case, schema, doc, files, layout, d, fmt, blob, status, merged):
+def _rewritten(files):
+    """The same include files with other contents."""
+    def bump(t):
+        if not isinstance(t, dict):
+            return t
+        out = {}
+        for k, v in t.items():
+            if k == "a" and isinstance(v, int) and not isinstance(v, bool):
+                out[k] = v + 1000
+            elif k == "b" and isinstance(v, str):
+                out[k] = v + "2"
+            elif k == "lst" and isinstance(v, list):
+                out[k] = v + [7]
+            elif k in ("sub", "deep") and isinstance(v, dict):
+                out[k] = bump(v)
+            else:
+                out[k] = v
+        return out
+    return {rel: bump(copy.deepcopy(t)) for rel, t in files.items()}
+
+
+def _run_files_tail(cc, ctx, res, case, schema, doc, files, layout, d, fmt, blob, status, merged, again=False):
     actual = schema()
+    opts = dict(case.get("opts") or {})
+    if opts:
+        res.count("file_cases_with_format_options")
     try:
-        if case["use_load"]:
+        if case["use_load"] and not opts:  # Config.load() takes no format options
             main = os.path.join(d, "main.cfg")
             with open(main, "wb") as fp:
                 fp.write(blob)
             actual.load(main, fmt)
         else:
-            actual.loads(blob, fmt)
+            actual.loads(blob, fmt, **opts)
         err = None
     except Exception as exc:
         err = exc
-    feat = "%s:%s" % (fmt, "+".join(case["inc_kinds"]) or "no-include")
+    feat = "%s:%s" % (fmt, "+".join(case["inc_kinds"]) or "no-include") + (":options" if opts else "") + (
+        ":reload-after-rewrite" if again else "")
     if status == "fail":
         res.count("file_cases_unresolvable_rejected")
         if err is None:
@@ -396,3 +441,13 @@ def _run_files_tail(cc, ctx, res, case, schema, doc, files, layout, d, fmt, blob
         if layout["root_inc"] >= 2:
             res.count("file_cases_chain")
         res.nontrivial("files", case["fmt"], case["doc"], case["files"], layout)
+        if case.get("reload_after_rewrite") and not again:
+            files2 = _rewritten(files)
+            if files2 != files:
+                try:
+                    case["_write_all"](files2)
+                except Exception:
+                    return
+                res.count("reloads_after_include_files_rewritten")
+                status2, merged2 = _model_merged(doc, files2, layout, d, d)
+                _run_files_tail(cc, ctx, res, case, schema, doc, files2, layout, d, fmt, blob, status2, merged2, again=True)
